@@ -43,7 +43,7 @@ pub fn index_of(chain: &Blockchain, max_id: u64) -> BTreeMap<u64, Hash> {
 }
 
 pub fn snapshot(chain: &Blockchain, wallet: &Wallet, mempool_sigs: BTreeSet<Vec<u8>>) -> Snapshot {
-    let max_id = chain.blocks.values().map(|b| b.id).max().unwrap_or(0).max(chain.get_latest_block_id()) + 2;
+    let max_id = chain.blocks.values().map(|b| b.id).max().unwrap_or(0).max(chain.get_latest_block_id()).saturating_add(2);
     Snapshot {
         tip_id: chain.get_latest_block_id(),
         tip_hash: chain.get_latest_block_hash(),
